@@ -54,7 +54,9 @@ def ROUNDS : Nat := 1000000
 def Scen.prog : Scen → Prog RVal
   | .qdt d => (queryDeviceTypes d).bind fun l => .done (.list l)
   | .groups d => (queryGroups d).bind fun l => .done (.list l)
-  | .setGroups d req a r => (GearSeq.setGroups d req (ordOf a r)).bind fun _ => .done .unit
+  | .setGroups d req a r =>
+      (GearSeq.setGroups d (if req.all (· < 16) then bitsOf (maskOf req) else req) (ordOf a r)).bind
+        fun _ => .done .unit
   | .setTc d tc => (GearSeq.setTc d tc).bind fun _ => .done .unit
   | .setTcLimit d w tc => (GearSeq.setTcLimit d w tc).bind fun _ => .done .unit
   | .qColour d q => (queryColour d q).bind fun o => .done (.opt o)
@@ -257,7 +259,7 @@ def Scen.post (sc : Scen) (b : Bus) (o : Out Bus RVal) : String :=
      | _, _ => "n/a")
   | .setGroups d req _ _ =>
     (match d.resolve, castOut o asUnit with
-     | .ok a, some o => if req.all (· < 16) then verdict (setGroupsPost b a req o) else "n/a"
+     | .ok a, some o => if req.all (· < 16) then verdict (setGroupsPost b a (maskOf req) o) else "n/a"
      | .ok _, none => "FAIL"
      | _, _ => "n/a")
   | .setTc d tc =>
@@ -304,6 +306,13 @@ def Scen.postStream (sc : Scen) (answers : Nat → Resp) (res : Outcome RVal) (n
       | .raised e => some (.raised e) | .outOfFuel => some .outOfFuel
     (match r with
      | some r => verdict (qdtStreamPost answers ⟨r, n, trace⟩)
+     | none => "FAIL")
+  | .qColour _ (some _) =>
+    let r : Option (Outcome (Option Nat)) := match res with
+      | .ret (.opt o) => some (.ret o) | .ret _ => none
+      | .raised e => some (.raised e) | .outOfFuel => some .outOfFuel
+    (match r with
+     | some r => verdict (queryColourStreamPost answers ⟨r, n, trace⟩)
      | none => "FAIL")
   | _ => "n/a"
 
